@@ -70,6 +70,9 @@ func (s *ServerLedActivationToken) Store(ctx context.Context, storage nodeenroll
 		if err != nil {
 			return fmt.Errorf("(%s) error marshaling wrapped creation time: %w", op, err)
 		}
+		// The clear creation time must not sit next to its sealed copy; it is
+		// rebuilt from the unsealed bytes on load
+		tokenToStore.CreationTime = nil
 	}
 
 	if err := storage.Store(ctx, tokenToStore); err != nil {
